@@ -40,19 +40,24 @@ def call(f, *a):
 def build_all(e, V):
     """All the ways the implementation can produce the number: name -> (callable, takes_dict)."""
     import optyx.core.compiler as C
-    C._compile_cached.cache_clear()
+    # The process-wide compile cache is deliberately NOT cleared between cases: whatever earlier expressions left in it
+    # (same-named views, equal-named variables) must not change the answer for this one.
     with np.errstate(all="ignore"):
         try:
             f = C.compile_expression(e, V)
             f2 = C.compile_expression(e, V)
             old = C._RECURSION_THRESHOLD
+            cached = C._compile_cached
             try:
                 C._RECURSION_THRESHOLD = 0
-                C._compile_cached.cache_clear()
+                if hasattr(cached, "__wrapped__"):
+                    C._compile_cached = cached.__wrapped__          # the explicit-stack builder, bypassing (not clearing) the cache
+                else:
+                    cached.cache_clear()
                 f3 = C.compile_expression(e, V)
             finally:
                 C._RECURSION_THRESHOLD = old
-                C._compile_cached.cache_clear()
+                C._compile_cached = cached
             f4 = C.compile_to_dict_function(e, V)
             ce = C.CompiledExpression(e, V)
         except Exception as ex:
@@ -84,7 +89,25 @@ def run(rep: vk.Report):
     nontrivial = set()
     param_sets = [0]
     partial, partial_meta = [], []
-    for g, e in common.corpus(rng, rep.tier, n_expr, profiles=("poly", "smooth", "smooth", "all", "all"), errors=errors):
+    def stream():
+        k = 0
+        for g, e in common.corpus(rng, rep.tier, n_expr, profiles=("poly", "smooth", "smooth", "all", "all"), errors=errors):
+            yield g, e, None
+            k += 1
+            if k % 5 == 0:
+                # two DIFFERENT views with the same name, reduced the same way and compiled one after the other for the same V
+                try:
+                    a, b = g.siblings()
+                    cf = g.coeffs_distinct(a.size)
+                    red = rng.choice([lambda w: w.sum(), lambda w: cf @ w, lambda w: w.dot(w) + cf @ w, lambda w: (w ** 2).sum()])
+                    base = sorted({v.name: v for v in list(a._variables) + list(b._variables)}.values(), key=lambda v: common.natkey(v.name))
+                    Vs = common.orders(base, [Variable("extra0")] if rng.random() < 0.3 else [], rng)
+                    yield g, red(a), Vs
+                    yield g, red(b), Vs
+                except Exception:
+                    pass
+
+    for g, e, Vfixed in stream():
         try:
             S = ser.Ser()
             te = S.expr(e)
@@ -95,7 +118,7 @@ def run(rep: vk.Report):
             hits[k] = hits.get(k, 0) + v
         vs = sorted(e.get_variables(), key=lambda v: v.name)
         extras = [Variable(f"extra{j}") for j in range(rng.randint(0, 3))]
-        V = common.orders(vs, extras, rng)
+        V = common.orders(vs, extras, rng) if Vfixed is None else list(Vfixed)
         params = common.params_of(e)
         saved = {n: p.value for n, p in params.items()}
         try:
@@ -154,7 +177,7 @@ def run(rep: vk.Report):
                            "expr": partial_meta[i]["expr"], "V": partial_meta[i]["V"], "point": partial_meta[i]["point"],
                            "obs": partial_meta[i]["obs"], "finite_values_outside_enclosure": i in set(pf),
                            "witness": partial_meta[i]}, concrete=True)
-    for i in fails:
+    for i in fails[:25]:
         m = meta[i]
         vals = {k: v for k, v in m["obs"].items() if isinstance(v, float)}
         spread = max(vals.values()) - min(vals.values())
